@@ -476,6 +476,15 @@ def coq_rows(E, rows):
                                       E.s(r["ct"]), E.s(r["enc"]), E.s(r["content"])) for r in rows)
 
 
+def coq_tree(E, t, content=None):
+    if t["leaf"]:
+        return "(Leaf %s %s %s)" % (E.s(t["ctype"]), E.s(t["enc"] or ""), E.s(t["content"] if content is None else content))
+    f = "FNil"
+    for k in reversed(t["kids"]):
+        f = "(FCons %s %s)" % (coq_tree(E, k), f)
+    return "(Multi %s %s)" % (E.s("multipart/" + t["sub"]), f)
+
+
 def parse_bad(log, name):
     txt = C.parse_coq_list_out(log, name)
     if txt is None:
@@ -604,6 +613,7 @@ def evaluate_attrs(chk, groups, built, results, corpus_mode=False):
     item_cases = []     # (coq tuple, descr)
     leaf_cases = []
     size_cases = []
+    flat_cases = []
     stats = {"messages": 0, "items": 0, "leaves": 0, "multipart": 0, "nested": 0, "blob_parts": 0, "partials": 0,
              "absent_paths": 0, "crlf_leaves": 0, "rewrap_leaves": 0, "special_names": 0}
     nontrivial = set()
@@ -644,6 +654,10 @@ def evaluate_attrs(chk, groups, built, results, corpus_mode=False):
             coq_defs.append("Definition rows_%s : list row := %s." % (tag, coq_rows(E, rows)))
             coq_defs.append("Definition raw_%s : str := %s." % (tag, E.s(raw)))
             single = len(rows) == 1
+            if rows:
+                i4m = m["text"].find("\r\n\r\n")
+                flat_cases.append(("(%s, %d, rows_%s)" % (coq_tree(E, m["tree"], m["text"][i4m + 4:] if m["tree"]["leaf"] else None), rows[0]["id"], tag),
+                                   {"msg": m["text"], "rows": [dict(r, content=r["content"][:60]) for r in rows], "item": "stored part rows"}))
             nontrivial.add(canon_b(raw))
             if not m["tree"]["leaf"]:
                 stats["multipart"] += 1
@@ -788,11 +802,17 @@ def evaluate_attrs(chk, groups, built, results, corpus_mode=False):
         body += "Definition leaf_cases : list (str * bool * list row * list nat * (str * str * N)) := [\n%s].\n" % ";\n".join(c for c, _ in leaf_cases)
         body += ("Definition leaf_eqb (a : str * str * nat) (b : str * str * N) := let '(t1, e1, n1) := a in let '(t2, e2, n2) := b in str_eqb t1 t2 && str_eqb e1 e2 && N.eqb (N.of_nat n1) n2.\n"
                  "Definition leaf_bad := Eval vm_compute in bad (map (fun c : str * bool * list row * list nat * (str * str * N) => let '(raw, single, rows, p, o) := c in match map_path rows p with Some r => leaf_eqb (if single then announced_single raw r else announced_leaf strip2 r) o | None => false end) leaf_cases).\nPrint leaf_bad.\n")
+        body += "Definition flat_cases : list (tree * nat * list row) := [\n%s].\n" % ";\n".join(c for c, _ in flat_cases)
+        body += ("Definition onat_eqb (a b : option nat) := match a, b with Some x, Some y => Nat.eqb x y | None, None => true | _, _ => false end.\n"
+                 "Definition row_eqb (a b : row) := Nat.eqb (rid a) (rid b) && Nat.eqb (rpn a) (rpn b) && onat_eqb (rpar a) (rpar b) && str_eqb (rct a) (rct b) && str_eqb (renc a) (renc b) && str_eqb (rcontent a) (rcontent b).\n"
+                 "Fixpoint rows_eqb (a b : list row) := match a, b with [], [] => true | x :: a', y :: b' => row_eqb x y && rows_eqb a' b' | _, _ => false end.\n"
+                 "Definition flat_bad := Eval vm_compute in bad (map (fun c : tree * nat * list row => let '(t, base, rows) := c in rows_eqb (rows_of t base) rows) flat_cases).\nPrint flat_bad.\n")
         rc, log = C.coq_eval_cases("C14_attrs" if not corpus_mode else "C14_corpus", body)
         if rc != 0:
             chk.broken_obligation("in-Coq evaluation of the C14 attrs cases failed:\n" + log[-1500:], {"suite": "attrs"})
         else:
-            for name, cases, what in (("item_bad", item_cases, "fetch_item"), ("size_bad", size_cases, "size_of"), ("leaf_bad", leaf_cases, "announced_leaf/map_path")):
+            for name, cases, what in (("item_bad", item_cases, "fetch_item"), ("size_bad", size_cases, "size_of"), ("leaf_bad", leaf_cases, "announced_leaf/map_path"),
+                                      ("flat_bad", flat_cases, "rows_of (row numbering of parseMultipart + StoreMessagePerUser...)")):
                 d = parse_bad(log, name)
                 if d is None:
                     chk.broken_obligation("could not read %s from the Coq output" % name, {"suite": "attrs"})
